@@ -121,7 +121,7 @@ TSum(F(_), S) == FoldSet(LAMBDA x, acc : TAdd(F(x), acc), TZero, S)
 \* single-crystal tensor seen from the external frame: crystal -> external is the transpose
 Rotated(C6, A) == TRotate(ToTensor(C6), MT(A))
 NSnap(minerals) == Len(minerals[1].ori)
-Grains(minerals) == {x \in (DOMAIN minerals) \X (1..3) : x[2] <= minerals[x[1]].n}
+Grains(minerals) == {x \in (DOMAIN minerals) \X (1..6) : x[2] <= minerals[x[1]].n}
 PhaseFraction(asm, phi, ph) == phi[IndexOf(asm, ph)]
 SingleCrystal(tensors, ph) == IF ph = "olivine" THEN tensors.olivine ELSE tensors.enstatite
 TensorByPosition(tensors, asm, ph) == <<tensors.olivine, tensors.enstatite>>[IndexOf(asm, ph)]
@@ -367,6 +367,15 @@ Mixture(F(_), cs) == LET T == LibTensors(cs.lib) IN
 ModuliOfAverage == (Done("case") /\ VolumesNormalised(c)) =>
                      \A s \in DOMAIN res.avg : /\ KV(res.avg[s]) = Mixture(KV, c)
                                                /\ GV(res.avg[s]) = Mixture(GV, c)
+\* lumping: the aggregate in which every grain is present as two copies of half its volume has the same average (the
+\* average is linear in the grain volumes).  By induction, an aggregate of ANY grain count built from copies of the case's
+\* grains with the volumes shared out has the case's average: the size sweep of the harness (C10.size_sweep) applies this
+\* at every grain count up to its bound.
+SplitCase(cs) == [cs EXCEPT !.mins = [m \in DOMAIN cs.mins |->
+                     [cs.mins[m] EXCEPT !.n = 2 * @,
+                                        !.ori = [s \in DOMAIN @ |-> @[s] \o @[s]],
+                                        !.vol = [s \in DOMAIN @ |-> [g \in DOMAIN @[s] |-> QMul(QHalf, @[s][g])] \o [g \in DOMAIN @[s] |-> QMul(QHalf, @[s][g])]]]]]
+Lumping == Done("case") => ById(SplitCase(c)) = res.avg
 AlignedReturnsC == (Done("case") /\ c.tag = "aligned") =>
                      res.avg = <<SingleCrystal(LibTensors(c.lib), c.asm[1])>>
 OrdinalOrdered(asm) == \A i \in DOMAIN asm : Ordinal(asm[i]) = i - 1
